@@ -1,7 +1,7 @@
 (* Exec2.v — executable instances of Ops.v / Spec2.v on cells = list Q and the second half of
    the operation interpreter run by the correspondence check. *)
 From Coq Require Import QArith Qround.
-From HS Require Import Prelude Cov Map Spec Ops Spec2 Exec Packed Moc Sharing.
+From HS Require Import Prelude Cov Map Spec Ops Spec2 Exec Packed Moc Sharing CatChk PackedCopy.
 Open Scope Z_scope.
 
 (* ---------- element arithmetic on Q ---------- *)
@@ -168,6 +168,41 @@ Definition step2 (w : world) (op : list (list Z)) : world * result :=
                                           (k_sent_nonzero kout) n' nf' bl ins cp)
                                  (x_dupdate kout d0 URepl (d_valid_pvs kout du) false)),
            [ok1; [if overlap then 1 else 0]])
+        end
+      end
+    end
+  else
+  if code =? 36 then
+    (* concatenation with overlap checking: [36];[hout];hs;kout;[ncov_out nfine_out];[chk ormode]
+       L1: the routine's data flow with the check (CatChk.cat_chk; None = it raises); L0: at every pixel the
+       inputs valid there folded in list order — or-ed onto a valid value when checking, taken otherwise — and
+       "must raise" iff checking without or and two inputs share a valid pixel.
+       result: [1] or [2] (L1 raised); [L0 must raise] *)
+    let hout := gz op 1 0 in
+    match wget_all w (grp op 2) with
+    | None => (w, err 1)
+    | Some ss =>
+      let kout := kinfo_of (grp op 3) in
+      match ss with
+      | [] => (w, err 4)
+      | s0 :: _ =>
+        let bl := blank (h_m s0) in
+        let n' := gz op 4 0 in let nf' := gz op 4 1 in
+        let chk := gz op 5 0 =? 1 in let orm := gz op 5 1 =? 1 in
+        let vk := k_valid kout in
+        let ds := map (fun s => (k_valid (h_k s), h_d s)) ss in
+        let d0 := d_make_empty cellv n' nf' bl None in
+        let vals := d_vals_at cellv dcell ds in
+        let pix := filter (fun p => match vals p with [] => false | _ => true end) (zrange 0 (n' * nf')) in
+        let must := chk && negb orm && existsb (fun p => 1 <? zlen (vals p)) pix in
+        let ostep (acc v : cellv) := if chk && vk acc then v_or v acc else v in
+        let dres := x_dupdate kout d0 URepl (map (fun p => (p, fold_left ostep (vals p) bl)) pix) false in
+        let ins := map h_m ss in
+        let cp := cat_cov_pix cellv vk dcell n' nf' ins in
+        match cat_chk cellv vk dcell v_add v_or v_and (k_zero kout) (k_is_sent kout) (k_sent_nonzero kout)
+                      chk orm n' nf' bl ins cp with
+        | None => (w, [[2]; [Z.b2z must]])
+        | Some m' => (wset w hout (mkh kout m' dres), [ok1; [Z.b2z must]])
         end
       end
     end
@@ -349,6 +384,8 @@ Definition step2 (w : world) (op : list (list Z)) : world * result :=
                                                3 xor, 4 invert; other = one byte (boolean operand: 255 / 0)
                                                or the aligned operand's bytes)
    [46];[0 nd si st];data                   -> population count of the view (sum())
+   [47];[0 nd si st];data                   -> bytes of copy() (padding of the edge bytes cleared)
+   [48];[0 nd si st];data;[newsize]         -> view and bytes after resize(newsize), or raised
    [44];[kind];locs;data                    -> bytes after set (0) / clear (1) of the bits at locs, or the
                                                tested bits (2), or set locs then clear the locs of group 4 (3);
                                                locs already shifted by the start index *)
@@ -373,6 +410,15 @@ Definition packed_monitor (op : list (list Z)) : result :=
     (* [45];[producer code] -> what the producer's result shares with its first argument *)
     let s := prod_shares (gz op 1 0) in
     [ok1; [Z.b2z (s_cov s); Z.b2z (s_sp s); Z.b2z (s_meta s)]]
+  else if code =? 47 then
+    (* [47];[0 nd si st];data -> bytes of copy() *)
+    [ok1; copy_view (view_of (grp op 1)) (grp op 2)]
+  else if code =? 48 then
+    (* [48];[0 nd si st];data;[newsize] -> view and bytes after resize(newsize), or raised *)
+    match resize_view (view_of (grp op 1)) (grp op 2) (gz op 3 0) with
+    | Some (v, d) => [ok1; [vds v; vde v; vsi v; vst v]; d]
+    | None => raised
+    end
   else if code =? 43 then
     let o := match gz op 2 0 with 0 => BSet | 1 => BAnd | 2 => BOr | 3 => BXor | _ => BInv end in
     let other := grp op 4 in
